@@ -172,6 +172,17 @@ impl<A: AApi> ASut<A> {
         let n = NAMES.iter().find(|n| **n == name)?;
         Some(Op { name: n, args: it.filter_map(|a| a.parse().ok()).collect(), blob: None })
     }
+    /// What the API itself reports (read-only view on a private copy): the slice view and `len`.
+    fn api_view(&self, state: &[u8]) -> Option<(Vec<i128>, usize)> {
+        let mut copy = ABuf::new_skewed(state, 2, 0x11, self.skew());
+        guarded(|| {
+            let v = A::call(copy.bytes_mut(), &Op::new("rview", &[]));
+            let items: Vec<i128> = v.trim_matches(|c| c == '[' || c == ']').split(',').filter(|s| !s.is_empty()).map(|s| s.parse().unwrap()).collect();
+            let len: usize = A::call(copy.bytes_mut(), &Op::new("rlen", &[])).parse().unwrap();
+            (items, len)
+        })
+        .ok()
+    }
     fn prefix_max() -> usize {
         if A::PW >= 8 { usize::MAX } else { (1usize << (8 * A::PW)) - 1 }
     }
@@ -285,7 +296,9 @@ impl<A: AApi> Sut for ASut<A> {
     }
     fn oracle(&self, pre: &[u8], op: &Op, out: &OpOut, post: &[u8]) -> Vec<Finding> {
         let mut f = vec![];
+        let prop = if op.name == "ext" { "C08" } else { "C03" };
         if out.panic.is_some() {
+            f.push(Finding { property: prop, what: format!("`{}` panicked instead of answering: {}", op.text(), out.panic.clone().unwrap()) });
             return f;
         }
         let dp = adecode::<A>(pre);
@@ -297,15 +310,23 @@ impl<A: AApi> Sut for ASut<A> {
         if dp.len > dp.vals.len() {
             return f;
         }
-        // C03/C10: the view is strictly ascending
-        let view_q: Vec<i128> = dq.vals[..dq.len].to_vec();
+        let Some((view_p, _)) = self.api_view(pre) else { return f };
+        let Some((view_q, qlen)) = self.api_view(post) else {
+            f.push(Finding { property: prop, what: format!("after `{}` the slice view panics", op.text()) });
+            return f;
+        };
+        // C10: the bytes are the count followed by the ascending values the API shows
+        if dq.vals[..dq.len] != view_q[..] || qlen != dq.len {
+            f.push(Finding { property: "C10", what: format!("after `{}` the bytes hold {:?} (count {}) but the slice view is {:?}", op.text(), &dq.vals[..dq.len], dq.len, view_q) });
+        }
+        // C03: the view is strictly ascending
         for w in view_q.windows(2) {
             if !(Self::key_of(w[0]) < Self::key_of(w[1])) {
                 f.push(Finding { property: "C03", what: format!("after `{}` the slice view is not strictly ascending: {:?}", op.text(), view_q) });
                 break;
             }
         }
-        let m: BTreeMap<i128, i128> = dp.vals[..dp.len].iter().map(|v| (Self::key_of(*v), *v)).collect();
+        let m: BTreeMap<i128, i128> = view_p.iter().map(|v| (Self::key_of(*v), *v)).collect();
         let q: BTreeMap<i128, i128> = view_q.iter().map(|v| (Self::key_of(*v), *v)).collect();
         let mut exp = m.clone();
         let bound = dp.vals.len().min(Self::prefix_max());
@@ -346,7 +367,6 @@ impl<A: AApi> Sut for ASut<A> {
             }
             _ => None,
         };
-        let prop = if op.name == "ext" { "C08" } else { "C03" };
         if let Some(e) = expected {
             if e != out.result {
                 f.push(Finding { property: prop, what: format!("`{}` returned {} but the reference set gives {}", op.text(), out.result, e) });
